@@ -66,9 +66,20 @@ pub fn strategy() -> impl Strategy<Value = Case> {
         prop::option::weighted(0.85, rec()),
         gen::greq_with(provision_or(gen::gurl())),
         prop_oneof![3 => Just(vec![]), 2 => prop::collection::vec(gen::greq_with(provision_or(gen::gurl())), 1..4)],
-        (prop::option::weighted(0.25, (prop::option::weighted(0.8, gen::gdoc()), prop::option::weighted(0.8, gen::gdoc()), prop::option::weighted(0.6, gen::gdoc()))), prop::option::weighted(0.12, prop::sample::select(vec![-1i32, -22, i32::MIN])), prop::bool::weighted(0.12)),
+        (prop::option::weighted(0.25, (prop::option::weighted(0.8, gen::gdoc()), prop::option::weighted(0.8, gen::gdoc()), prop::option::weighted(0.6, gen::gdoc()))), prop::option::weighted(0.12, prop::sample::select(vec![-1i32, -22, i32::MIN])), prop::bool::weighted(0.12), prop::option::weighted(0.1, (any::<bool>(), gen::case_mask()))),
     )
-        .prop_map(|(ws, imds, hostga, mut rec, req, more, (later_rules, admin_raw, morph))| {
+        .prop_map(|(ws, imds, hostga, mut rec, mut req, more, (later_rules, admin_raw, morph, exempt_shape))| {
+            // the two signature-exempt uploads take their own route through the proxy; they are mediated like everything else
+            if let Some((telemetry, mask)) = exempt_shape {
+                if telemetry {
+                    req.method = "POST".into();
+                    req.url = gen::GUrl { path: gen::flip_case("/machine/", mask), query: Some(gen::flip_case("comp=telemetrydata", mask.rotate_left(7))) };
+                } else {
+                    req.method = "PUT".into();
+                    req.url = gen::GUrl { path: gen::flip_case("/vmAgentLog", mask), query: None };
+                }
+                req.bind = gen::Bind { priv_sel: None, ident_sel: None };
+            }
             let morph = morph && rec.is_some();
             let (mut imds, mut later_rules) = (imds, later_rules);
             if morph {
@@ -128,7 +139,7 @@ pub fn strategy_c03() -> impl Strategy<Value = Case> {
     })
 }
 
-pub const RULE: &str = "generator: rule set (or none) per endpoint installed through the public set_*_rules x attribution record (12% of the non-elevated records carry a negative elevation field, 'status unknown'; in 12% of the cases the caller is a process that has been seen by the agent before and has since replaced its image with exec - same pid, another executable and command line; 85%: uid from the generated passwd, pid of a live helper process, elevation flag = (uid == 0) or independent, original destination in {WireServer, HostGAPlugin, IMDS, the proxy itself, another local address, 168.63.129.16:81, an address nobody listens on}) or no record (direct connection) x request (method, URL incl. '..' / %2e%2e / '/provision', URL and caller mostly bound to the destination's rule set, header set, body as Content-Length or chunked). The raw client binds its source port, the record is placed in the stand-in audit map for that port, then it connects to the real listener. oracle: bytes counted at the mock hosts and the client status against the reference (record present AND no literal '..' in the path AND reference authorizer != Block). non-trivial: record present, destination's rule set present and not disabled, and the reference decision depends on the rule set (flipping the default access or the caller's elevation changes it) - or one of the refusal classes with a record present (traversal, self, non-elevated to a root-only endpoint, enforced denial). 40% of the cases carry 1-3 further requests on the same keep-alive connection and 25% of those replace the rule sets after the first request; every request is judged on its own against the rules in force when it is sent. distinct by hash of the case.";
+pub const RULE: &str = "generator: rule set (or none) per endpoint installed through the public set_*_rules x attribution record (12% of the non-elevated records carry a negative elevation field, 'status unknown'; 10% of the requests are the two signature-exempt uploads (PUT /vmAgentLog, POST /machine/?comp=telemetrydata, any letter case); in 12% of the cases the caller is a process that has been seen by the agent before and has since replaced its image with exec - same pid, another executable and command line; 85%: uid from the generated passwd, pid of a live helper process, elevation flag = (uid == 0) or independent, original destination in {WireServer, HostGAPlugin, IMDS, the proxy itself, another local address, 168.63.129.16:81, an address nobody listens on}) or no record (direct connection) x request (method, URL incl. '..' / %2e%2e / '/provision', URL and caller mostly bound to the destination's rule set, header set, body as Content-Length or chunked). The raw client binds its source port, the record is placed in the stand-in audit map for that port, then it connects to the real listener. oracle: bytes counted at the mock hosts and the client status against the reference (record present AND no literal '..' in the path AND reference authorizer != Block). non-trivial: record present, destination's rule set present and not disabled, and the reference decision depends on the rule set (flipping the default access or the caller's elevation changes it) - or one of the refusal classes with a record present (traversal, self, non-elevated to a root-only endpoint, enforced denial). 40% of the cases carry 1-3 further requests on the same keep-alive connection and 25% of those replace the rule sets after the first request; every request is judged on its own against the rules in force when it is sent. distinct by hash of the case.";
 
 pub fn dest_of(d: DestSel) -> Dest {
     let (ip, port) = d.addr();
